@@ -129,6 +129,15 @@ def generate(rng, tier):
         iv = round_half_away(x)
         out = printed(iv, tgt)
         add(two_lines("%s to %s" % (fmt_dec(x), WORDS[tgt][0]), out, kind="round", value=bits(float(iv)), nt=BASES[tgt][2], out=out))
+    # ... also when decimal numbers are configured to be printed without rounding / with other digit counts: the based
+    # conversion rounds to the nearest integer regardless of the number configuration
+    for i, x in enumerate([2.7, 254.5, 7.9, 1023.75, 0.5, 2.4999, 99.999]):
+        tgt = ["hex", "binary", "octal"][i % 3]
+        iv = round_half_away(x)
+        out = printed(iv, tgt)
+        c = two_lines("%s to %s" % (fmt_dec(x), WORDS[tgt][0]), out, kind="round-numcfg", value=bits(float(iv)), nt=BASES[tgt][2], out=out)
+        c["ops"].insert(0, {"op": "set_num_cfg", "d": [2, 0, 5, 3][i % 4], "rm": i % 2 == 0, "round": False})
+        add(c)
     for i, v in enumerate([2 ** 52 + 1, 2 ** 52 + 3, 2 ** 53 - 1, 2 ** 53 - 3, 3 * 2 ** 51 + 1, 2 ** 52 + 2 ** 26 + 1,
                            2 ** 53 - 2 ** 20 - 1, 2 ** 52 + 12345]):
         fv, iv = held(v)
